@@ -42,6 +42,19 @@ def maxS (a b : α) : α := if a < b then b else a
 def approx (a b : α) : Bool :=
   decide (absS (a - b) ≤ (((1 : Nat) : α) / ((1000000000 : Nat) : α)) * maxS ((1 : Nat) : α) (maxS (absS a) (absS b)))
 
+/-- tolerant equality relative to the magnitude `s` of the DATA the two values were computed from (1e-9 relative
+    to `max(s, |a|, |b|)`): binary64 evaluation of a dot product / sum over `p` terms of total absolute size `s`
+    errs by at most `p · 2⁻⁵³ · s`, so the clause is insensitive to rounding for every `p < 10⁶` and still
+    resolves differences at the scale of the data when all effects are tiny (1e-8) or share a large offset -/
+def approxS (s a b : α) : Bool :=
+  decide (absS (a - b) ≤ (((1 : Nat) : α) / ((1000000000 : Nat) : α)) * maxS s (maxS (absS a) (absS b)))
+
+/-- `Σ |u_i|`: the magnitude of everything a chromosome copy with 0/1 alleles can score on one trait -/
+def absSum (u : List α) : α := Np.sum (u.map absS)
+
+/-- magnitude of an optimal value for one trait: `ploidy · Σ |u_i|` -/
+def scaleOf (geno : List (List (List α))) (u : List α) : α := (geno.length : α) * absSum u
+
 /-- the haplotype matrix in numpy layout `[m][n][b][t]` when every block column is written -/
 def hmatTotal (geno : List (List (List α))) (ucols : List (List α)) (bnds : List (Nat × Nat)) :
     List (List (List (List α))) :=
@@ -60,7 +73,7 @@ def conserve (geno : List (List (List α))) (ucols : List (List α))
       let h := hm.getD i []
       h.length == nhaploblk &&
       (List.range ucols.length).all (fun t =>
-        approx (Np.sum (h.map (fun row => row.getD t 0))) (Np.dot g (ucols.getD t [])))))
+        approxS (absSum (ucols.getD t [])) (Np.sum (h.map (fun row => row.getD t 0))) (Np.dot g (ucols.getD t [])))))
 
 /-- `ohvmat[s][t]` = ploidy · Σ_blocks max_(phase, parent of cross s), recomputed from the inputs on the
     given blocks -/
@@ -70,7 +83,7 @@ def ohvDef (geno : List (List (List α))) (ucols : List (List α)) (bnds : List 
   (List.range ucols.length).all (fun t =>
     let V := blockTable geno (ucols.getD t []) bnds
     (List.range xm.length).all (fun s =>
-      approx ((ohvmat.getD s []).getD t 0) (ohv V bnds.length (xm.getD s []))))
+      approxS (scaleOf geno (ucols.getD t [])) ((ohvmat.getD s []).getD t 0) (ohv V bnds.length (xm.getD s []))))
 
 /-- a doubled haploid that takes block `b` from `(phase, parent)` = `choice[b mod len]` of the cross is
     not better than the reported optimal haploid value -/
@@ -85,7 +98,8 @@ def ohvGeDh (geno : List (List (List α))) (ucols : List (List α)) (bnds : List
       let gam := mosaic bnds src
       (List.range ucols.length).all (fun t =>
         let v := (geno.length : α) * Np.dot gam (ucols.getD t [])
-        decide (v ≤ (ohvmat.getD s []).getD t 0) || approx v ((ohvmat.getD s []).getD t 0))))
+        decide (v ≤ (ohvmat.getD s []).getD t 0) ||
+          approxS (scaleOf geno (ucols.getD t [])) v ((ohvmat.getD s []).getD t 0))))
 where
   copyOf' (geno : List (List (List α))) (c : Nat × Nat) : List α := (geno.getD c.1 []).getD c.2 []
 
@@ -94,12 +108,22 @@ def opvDef (geno : List (List (List α))) (ucols : List (List α)) (bnds : List 
     (x : List Nat) (opv : List α) : Bool :=
   opv.length == ucols.length &&
   (List.range ucols.length).all (fun t =>
-    approx (-(opv.getD t 0)) (ohv (blockTable geno (ucols.getD t []) bnds) bnds.length x))
+    approxS (scaleOf geno (ucols.getD t [])) (-(opv.getD t 0))
+      (ohv (blockTable geno (ucols.getD t []) bnds) bnds.length x))
 
-/-- OHV subset latent = minus the mean of the selected crosses' optimal haploid values -/
-def ohvLatentDef (ohvmat : List (List α)) (x : List Nat) (lat : List α) : Bool :=
+/-- OHV subset latent = minus the mean of the selected crosses' optimal haploid values
+    (`sc[t]` = magnitude of trait `t`, `scaleOf`) -/
+def ohvLatentDef (sc : List α) (ohvmat : List (List α)) (x : List Nat) (lat : List α) : Bool :=
   (List.range lat.length).all (fun t =>
-    approx (lat.getD t 0) (-(Np.sum (x.map (fun i => (ohvmat.getD i []).getD t 0)) / (x.length : α))))
+    approxS (sc.getD t 0) (lat.getD t 0)
+      (-(Np.sum (x.map (fun i => (ohvmat.getD i []).getD t 0)) / (x.length : α))))
+
+/-- OHV real / integer / binary latent = minus the `x`-weighted mean of ALL crosses' optimal haploid values:
+    `-(Σ_i x_i · ohv_i) / Σ_i x_i` -/
+def ohvLatentWDef (sc : List α) (ohvmat : List (List α)) (x : List α) (lat : List α) : Bool :=
+  (List.range lat.length).all (fun t =>
+    approxS (sc.getD t 0) (lat.getD t 0)
+      (-(Np.sum (List.zipWith (fun xi row => xi * row.getD t 0) x ohvmat) / Np.sum x)))
 
 /-- genotype-builder latent by definition: per block the `nbest` largest best-phase values among the
     selected individuals (sort descending, take `nbest`), summed over blocks, times `-(ploidy / nbest)` -/
@@ -110,7 +134,7 @@ def gbDef (geno : List (List (List α))) (ucols : List (List α)) (bnds : List (
     let V := blockTable geno (ucols.getD t []) bnds
     let perBlock := (List.range bnds.length).map (fun b =>
       Np.sum ((Np.stableSort (fun a c => decide (c ≤ a)) (x.map (fun p => (bestBlock V [p] b).getD 0))).take nbest))
-    approx (lat.getD t 0) (-((geno.length : α) / (nbest : α)) * Np.sum perBlock))
+    approxS (scaleOf geno (ucols.getD t [])) (lat.getD t 0) (-((geno.length : α) / (nbest : α)) * Np.sum perBlock))
 
 end scalar
 
